@@ -155,6 +155,50 @@ def assemble(unit_dir, repo, vacuity=False, variables=None, probe_insert=None):
                 if real != want:
                     raise ExtractError(f"struct {a['name']} in {a['file']} changed: fields {real} (prelude declares {want})")
                 i += 1; continue
+            if s.startswith("//@bitflags "):
+                # the flag set is generated from the real `bitflags!` invocation: one boolean per flag (checked: every
+                # constant is a distinct single bit), with the set operations the extracted code uses
+                a = _attrs(s[len("//@bitflags "):])
+                src_ = source(a["file"]).src
+                m = re.search(r"bitflags!\s*\{.*?struct\s+%s\s*:\s*(\w+)\s*\{(.*?)\}\s*\}" % re.escape(a["name"]), src_, re.S)
+                if not m:
+                    raise ExtractError(f"anchor lost: bitflags struct {a['name']} in {a['file']}")
+                consts = re.findall(r"const\s+(\w+)\s*=\s*([^;]+);", m.group(2))
+                vals = []
+                for (cn, cv) in consts:
+                    try:
+                        v = int(cv.strip().replace("_", ""), 0)
+                    except ValueError:
+                        raise ExtractError(f"bitflags {a['name']}::{cn}: value `{cv.strip()}` is not a literal")
+                    if v == 0 or v & (v - 1) or v in vals:
+                        raise ExtractError(f"bitflags {a['name']}::{cn} = {cv.strip()} is not a distinct single bit: the boolean model does not apply")
+                    vals.append(v)
+                names = [cn for cn, _ in consts]
+                low = [n.lower() for n in names]
+                g.types.append({"file": a["file"], "item": "bitflags " + a["name"], "sha": hashlib.sha256(m.group(0).encode()).hexdigest()[:16],
+                                "rules": [("R20", "bitflags! { " + ", ".join(f"{n} = {v:#b}" for n, v in zip(names, vals)) + " } modelled as one boolean per (distinct, single-bit) flag")]})
+                out_ = ["#[derive(Clone, Copy)]", "pub struct %s { %s }" % (a["name"], ", ".join(f"pub {l}: bool" for l in low)), "impl %s {" % a["name"]]
+                for n, l in zip(names, low):
+                    out_.append("    pub const %s: %s = %s { %s };" % (n, a["name"], a["name"], ", ".join(f"{x}: {'true' if x == l else 'false'}" for x in low)))
+                out_.append("    pub fn empty() -> (r: %s) ensures %s { %s { %s } }" % (a["name"], " && ".join(f"!r.{l}" for l in low), a["name"], ", ".join(f"{l}: false" for l in low)))
+                out_.append("    pub fn contains(&self, o: %s) -> (r: bool) ensures r == (%s) { %s }" % (a["name"], " && ".join(f"(!o.{l} || self.{l})" for l in low), " && ".join(f"(!o.{l} || self.{l})" for l in low)))
+                out_.append("    pub fn insert(&mut self, o: %s) ensures %s { %s }" % (a["name"], ", ".join(f"final(self).{l} == (old(self).{l} || o.{l})" for l in low), " ".join(f"self.{l} = self.{l} || o.{l};" for l in low)))
+                out_.append("    pub fn remove(&mut self, o: %s) ensures %s { %s }" % (a["name"], ", ".join(f"final(self).{l} == (old(self).{l} && !o.{l})" for l in low), " ".join(f"self.{l} = self.{l} && !o.{l};" for l in low)))
+                out_.append("}")
+                # `A | B`, `A & B`, `!A` on flag sets (field-wise)
+                N = a["name"]
+                for tr, fn, op in (("BitOr", "bitor", "||"), ("BitAnd", "bitand", "&&")):
+                    out_.append("impl vstd::std_specs::ops::%sSpecImpl<%s> for %s {" % (tr, N, N))
+                    out_.append("    open spec fn obeys_%s_spec() -> bool { true }" % fn)
+                    out_.append("    open spec fn %s_req(self, o: %s) -> bool { true }" % (fn, N))
+                    out_.append("    open spec fn %s_spec(self, o: %s) -> %s { %s { %s } }" % (fn, N, N, N, ", ".join(f"{l}: self.{l} {op} o.{l}" for l in low)))
+                    out_.append("}")
+                    out_.append("impl core::ops::%s for %s {" % (tr, N))
+                    out_.append("    type Output = %s;" % N)
+                    out_.append("    fn %s(self, o: %s) -> (r: %s) { %s { %s } }" % (fn, N, N, N, ", ".join(f"{l}: self.{l} {op} o.{l}" for l in low)))
+                    out_.append("}")
+                emit("\n".join(out_))
+                i += 1; continue
             if s.startswith("//@check_enum "):
                 a = _attrs(s[len("//@check_enum "):])
                 it = source(a["file"]).find("enum " + a["name"])
@@ -306,6 +350,9 @@ def _emit_fn(g, source, a, blocks, vacuity, probe_insert=None):
             rules.append(("R8", f"signature: {old.strip()} -> {new.strip()}"))
     body = rewrite_body(it.body_text, rules, intended_panics=bool(a.get("intended_panics")))
     body = apply_r9(body, rules)
+    if a.get("trace_awaits"):
+        from rsx import trace_awaits as _ta
+        body = _ta(body, rules)
     if a.get("closure_ty"):
         # R18: an un-annotated closure `|p| EXPR` (EXPR a value expression) gets its specification: `|p| -> (o: TY) ensures o == EXPR { EXPR }`
         tk = tokenize(body)
@@ -371,13 +418,11 @@ def _emit_fn(g, source, a, blocks, vacuity, probe_insert=None):
         done = False
         for pat in ("let mut this = self.as_mut().project();", "let this = self.as_mut().project();", "let this = self.project();",
                     "let mut this = self.project();"):
-            try:
-                body = replace_pattern(body, pat, "", f.name, 1)
+            cnt = norm(body).count(norm(pat))
+            if cnt:
+                body = replace_pattern(body, pat, "", f.name, cnt)
                 done = True
-                rules.append(("R4d", f"`{pat}` dropped; `this.F` -> `(&mut self.F)`"))
-                break
-            except ExtractError:
-                continue
+                rules.append(("R4d", f"`{pat}` dropped ({cnt}x); `this.F` -> `(&mut self.F)`"))
         if not done:
             raise ExtractError(f"anchor lost: `let this = self.project();` in {f.name}")
         tk = tokenize(body)
@@ -417,7 +462,7 @@ def _emit_fn(g, source, a, blocks, vacuity, probe_insert=None):
         # R4c: with R4 the receiver already is `&mut self`; `let this = self.as_mut().get_mut();` (or `self.get_mut()`)
         # only re-borrows it.  The statement is dropped and the alias `this` is renamed to `self`.
         done = False
-        for pat in ("let this = self.as_mut().get_mut();", "let this = self.get_mut();"):
+        for pat in ("let this = self.as_mut().get_mut();", "let this = self.get_mut();", "let this = Pin::into_inner(self);"):
             try:
                 body = replace_pattern(body, pat, "", f.name, 1)
                 done = True
@@ -482,6 +527,19 @@ def _emit_fn(g, source, a, blocks, vacuity, probe_insert=None):
     f.emitted = "\n".join(g.lines[f.first - 1:f.last])
     f.sha = hashlib.sha256(f.orig.encode()).hexdigest()[:16]
     g.fns.append(f)
+    if a.get("awaited_twin"):
+        # R22: Verus does not carry an async fn's `&mut` postconditions across `.await` in its caller.  The caller's
+        # `X.f(..).await` is (declared //@replace) turned into a call of `f__awaited`: a body-less twin with THIS
+        # function's contract, i.e. the usual modular rule "awaiting an async fn runs it to completion" (A-AWAIT).
+        fname = f.item.split("/")[-1].strip().replace("fn ", "").strip()
+        if not re.search(r"\basync\s+fn\s+%s\b" % re.escape(fname), sigtext):
+            raise ExtractError(f"anchor lost: `async fn {fname}` in {f.name}")
+        sig3 = re.sub(r"\basync\s+fn\s+%s\b" % re.escape(fname), "fn " + fname + "__awaited", sigtext, count=1)
+        g.lines.append("#[verifier::external_body]")
+        for l in sig3.split("\n"): g.lines.append(l)
+        for l in spec.split("\n"): g.lines.append(l)
+        g.lines.append("{ unimplemented!() }")
+        rules.append(("R22", f"twin `{fname}__awaited` (no body, same contract) emitted for callers that await this async fn"))
     if vacuity and f.has_requires and not f.noreach:
         # must-fail reachability copy: same requires, same body, `ensures false`; callees keep their real contracts
         cl = _split_clauses(spec)
